@@ -2988,3 +2988,117 @@ func c19GlobalWritten(w *World, rel string, g *ssa.Global) bool {
 	}
 	return false
 }
+
+// ---------- the config blob is in the store when the manifest is packed (push/config-stored) ---------------------
+
+// c19IsExistsInvoke: `x.Exists(ctx, D)` on one of oras-go's storage interfaces.
+func c19IsExistsInvoke(ci ssa.CallInstruction) bool {
+	cc := ci.Common()
+	if !cc.IsInvoke() || cc.Method.Name() != "Exists" || len(cc.Args) != 2 {
+		return false
+	}
+	if cc.Method.Pkg() == nil || !strings.HasPrefix(cc.Method.Pkg().Path(), "oras.land/oras-go/v2") {
+		return false
+	}
+	return namedOf(cc.Args[1].Type()) == "ocispec.Descriptor"
+}
+
+// c19ConfigStored: push/config-stored.
+//
+// The manifest PushSignature packs names the notation config blob as its config. A push that is reported as success
+// promises a signature artifact that is in the store as a whole: oci.Store accepts a manifest whose config blob is
+// absent (it does not look the config up), so a failed upload of the config that is not reported leaves a signature
+// manifest with a dangling config behind a success — the sequence of pushes of the property then contains a push
+// whose artifact is incomplete although nothing said so (the same clause the obligations push/options/config "the
+// helper's error gates the packing" and push/config-blob speak about: they are empty if the helper answers nil after
+// a failed upload). Necessary condition, as a cut set on the config helper: once the edges are removed on which the
+// helper has learned that the blob is there —
+//
+//	the store answered Exists(config) with true,
+//	the Push of the config returned nil,
+//	the error of that Push is errdef.ErrAlreadyExists (errors.Is, or compared with it)
+//
+// — the helper has no success-capable exit left, except exits that hand the error of that very Push up unchanged
+// (`return d, s.Push(…)`: the caller's test of the helper's error, which push/options/config demands, is then the test
+// of the upload). Which way the tests are spelled is immaterial: `a && b` or nested ifs, either operand order, a
+// tagless switch, a boolean local holding the disjunction, or a module predicate that answers only through these facts
+// (c19Implies composes such predicates and error-returning helpers from their own gates).
+func c19ConfigStored(c *Ctx, CFG *ssa.Function, gname string) {
+	w := c.W
+	const key = "push/config-stored"
+	const rule = "every success exit of the config helper has learned that the config blob is in the store: the store answered Exists with true, or the Push of the config returned nil or errdef.ErrAlreadyExists (a failed upload of the config is never answered with success)"
+	facts := map[string]bool{}
+	pushes := map[*ssa.Call]bool{}
+	nPush, nExists := 0, 0
+	for _, ci := range allCalls(CFG) {
+		call, ok := ci.(*ssa.Call)
+		if !ok {
+			continue
+		}
+		switch {
+		case c19IsPushInvoke(call) && desc(call.Call.Args[1]) == gname:
+			e := descTailErr(call)
+			facts["EQ("+e+",nil)"] = true
+			for _, g := range []string{"global:oras/errdef.ErrAlreadyExists"} {
+				facts["T(call:errors.Is("+e+","+g+"))"] = true
+				facts["EQ("+e+","+g+")"] = true
+				facts["EQ("+g+","+e+")"] = true
+			}
+			pushes[call] = true
+			nPush++
+		case c19IsExistsInvoke(call) && desc(call.Call.Args[1]) == gname:
+			facts["T("+desc(call)+"#0)"] = true
+			nExists++
+		}
+	}
+	fi := w.Info(CFG)
+	cut := c19GateCut(w, CFG, facts, c19Same, 0)
+	// a boolean that holds a disjunction (`ok := err == nil || errors.Is(…)`): every alternative is one of the facts
+	for _, b := range CFG.Blocks {
+		iff, ok := blockTerm(b).(*ssa.If)
+		if !ok || len(b.Succs) != 2 {
+			continue
+		}
+		for j := 0; j < 2; j++ {
+			l := condLabel(iff.Cond, j == 0)
+			if !strings.HasPrefix(l, "OR(") {
+				continue
+			}
+			_, alts := splitTopArgs(l)
+			all := len(alts) > 0
+			for _, a := range alts {
+				if !facts[a] {
+					all = false
+				}
+			}
+			if all {
+				cut[edgeKey{b.Index, j}] = true
+			}
+		}
+	}
+	mode := Mode{Kind: mErr}
+	rest := fi.summarizeFrom(mode, entryState(), cut)
+	c.Evals += rest.States
+	detail := fmt.Sprintf("%d Push and %d Exists of the config descriptor in the helper", nPush, nExists)
+	if nPush+nExists == 0 {
+		c.Bad(key, rule, w.FnPos(CFG), "the helper neither asks the store for the config descriptor it returns nor pushes it")
+		return
+	}
+	if !rest.Complete {
+		c.Unk(key, rule, w.FnPos(CFG), "the helper's exits could not be summarised")
+		return
+	}
+	for _, e := range rest.Exits {
+		// the error handed up is the upload's own
+		k := len(e.Ret.Results) - 1
+		if rv := c19ExitResult(e, k); rv != nil {
+			if pc, ok := loadOrigin(rv).(*ssa.Call); ok && pushes[pc] {
+				continue
+			}
+		}
+		wit := fi.successWitness(mode, entryState(), cut)
+		c.Bad(key, rule, w.InstrPos(e.Ret), "this exit answers success on a path on which neither the existence test nor the upload of the config was found to have succeeded ("+detail+")", wit...)
+		return
+	}
+	c.OK(key, rule, w.FnPos(CFG))
+}
